@@ -18,9 +18,10 @@ graph).  Outside it the Python raises `AttributeError` (`GetBondBetweenAtoms` re
 point that depends on the evaluation order; the model treats such a ring as not eligible.  Every
 theorem about `decompose` carries `ringsBonded` next to `Mol.wf`.
 
-The bond update is written as one pass over the bond list (every bond joining two consecutive ring
-atoms becomes aromatic); on a graph without parallel bonds (`Mol.wf`) that is the six
-`GetBondBetweenAtoms(...).SetBondType(AROMATIC)` calls.
+The update is written as one pass (every atom of the ring flagged, every bond joining two consecutive
+ring atoms retyped); on a graph without parallel bonds (`Mol.wf`) that is exactly the six
+`GetAtomWithIdx(a).SetIsAromatic(True)` and six `GetBondBetweenAtoms(x, y).SetBondType(AROMATIC)` calls
+executed in order — proved: `C03_aromatize_update_literal` (`PGA/Proofs/AromatizeLiteral.lean`).
 -/
 namespace PGA
 namespace Arom
